@@ -320,5 +320,156 @@ Proof.
   apply Js_step; [intros X; apply NI; left; auto|exact J].
 Qed.
 
+(* ---------------------------------------------------------------------- *)
+(* EVERY schedule, closing the input (EOF) included.  Of the clauses above
+   three do not survive EOF (read_from_input sets EOFError whatever the key
+   buffer holds): "key buffer empty when the result is set", "a reset throws
+   nothing away" and "no _Flush left in queue or store" (witnesses:
+   C17_Witness.v).  What survives, for every label sequence: after the result
+   is set only reports reach handlers, each alone; nothing is dropped late;
+   exit() is never called twice; a reset never throws away anything from the
+   QUEUE; and the key buffer is non-empty with the result set only when that
+   result is the EOF one. *)
+Definition ok_ev_w (e : ev bid) : Prop :=
+  match e with
+  | EInvoke true _ ks => exists c, ks = [c] /\ is_cpr c = true
+  | EDrop _ true _ => False
+  | ELost _ _ q => q = []
+  | _ => True
+  end.
+
+Lemma early_ok_w (evs : list (ev bid)) : Forall early evs -> Forall ok_ev_w evs.
+Proof.
+  intros F. eapply Forall_impl; [|exact F]. intros [|l b ks|l k|ks q] H; cbn in *; try contradiction.
+  - subst l. exact I.
+  - subst l. exact I.
+Qed.
+
+Definition Wc0 (c : core) : Prop :=
+  cph c <> CBroken res /\ (forall r, cph c = CDone r -> r <> res_eof -> kbuf c = []) /\ Forall ok_ev_w (rlog c).
+
+Lemma send_W_run it (c : core) : cph c = CRun res -> Wc0 c -> Wc0 (send it c).
+Proof.
+  intros PH (NB & LK & OK). destruct it as [k|]; unfold C17_Typeahead.send.
+  - destruct (loop_from_run (S (S (length (kbuf c)))) false (set_kbuf (kbuf c ++ [k]) c) PH) as (A & B & evs & L & F).
+    split; [exact A|]. split; [intros r X _; apply B; unfold late; rewrite X; reflexivity|].
+    rewrite L. apply Forall_app; split; [apply early_ok_w; exact F|exact OK].
+  - destruct (loop_from_run (S (length (kbuf c))) true c PH) as (A & B & evs & L & F).
+    split; [exact A|]. split; [intros r X _; apply B; unfold late; rewrite X; reflexivity|].
+    rewrite L. apply Forall_app; split; [apply early_ok_w; exact F|exact OK].
+Qed.
+
+Lemma handle_cpr_W k (c : core) : is_cpr k = true -> Wc0 c -> Wc0 (handle_cpr k c).
+Proof.
+  intros CK (NB & LK & OK). destruct (handle_cpr_eq k c) as (E1 & E2 & E3 & E4 & E5).
+  unfold Wc0. rewrite E2, E3. split; [exact NB|]. split; [exact LK|].
+  destruct E5 as [E5|(b & _ & E5)]; rewrite E5; [exact OK|].
+  constructor; [|exact OK]. cbn. destruct (late c); [exists k; auto|exact I].
+Qed.
+
+Lemma deliver_W_run it (c : core) : cph c = CRun res -> Wc0 c -> Wc0 (deliver it c).
+Proof.
+  intros PH J. destruct it as [k|]; cbn [C17_Typeahead.deliver]; [|apply send_W_run; assumption].
+  destruct (is_cpr k) eqn:CK; [apply handle_cpr_W; assumption|apply send_W_run; assumption].
+Qed.
+
+Lemma Wc0_same (c c' : core) : cph c' = cph c -> kbuf c' = kbuf c -> rlog c' = rlog c -> Wc0 c -> Wc0 c'.
+Proof. intros H1 H2 H3. unfold Wc0. rewrite H1, H2, H3. auto. Qed.
+
+Lemma drain_W l : forall c : core, cph c = CRun res -> Wc0 c -> Wc0 (drain l c).
+Proof.
+  induction l as [|k l IH]; intros c PH J; cbn [C17_Typeahead.drain]; [exact J|].
+  pose proof (deliver_W_run (IKey k) c PH J) as J'.
+  destruct (cph (deliver (IKey k) c)) eqn:PC.
+  - destruct (pb (deliver (IKey k) c)); [apply IH; assumption|].
+    eapply Wc0_same; [| | |exact J']; reflexivity.
+  - eapply Wc0_same; [| | |exact J']; reflexivity.
+  - eapply Wc0_same; [| | |exact J']; reflexivity.
+Qed.
+
+Lemma deliver_d_W_run it (c : core) : cph c = CRun res -> Wc0 c -> Wc0 (deliver_d it c).
+Proof.
+  intros PH J. pose proof (deliver_W_run it c PH J) as J'. unfold C17_Typeahead.deliver_d.
+  destruct (cph (deliver it c)) eqn:PC; [|exact J'|exact J'].
+  apply drain_W; [exact PC|]. eapply Wc0_same; [| | |exact J']; reflexivity.
+Qed.
+
+Lemma pq_W q : forall c : core, Wc0 c -> Wc0 (fst (process_q q c)).
+Proof.
+  induction q as [|it q IH]; intros c J; cbn [C17_Typeahead.process_q]; [exact J|].
+  destruct (cph c) eqn:PH; [| |exact J].
+  - cbn [fst]. apply IH.
+    assert (PH0 : cph (pop it c) = CRun res) by (destruct it; exact PH).
+    assert (J0 : Wc0 (pop it c)) by (destruct it; exact J).
+    eapply Wc0_same; [| | |exact (deliver_d_W_run it (pop it c) PH0 J0)]; reflexivity.
+  - destruct (item_is_cpr it) eqn:CI; cbn [fst]; [|apply IH; exact J].
+    destruct it as [k|]; [|discriminate]. cbn [item_is_cpr] in CI.
+    apply IH. cbn [C17_Typeahead.deliver C17_Typeahead.pop]. rewrite CI.
+    eapply Wc0_same; [| | |apply (handle_cpr_W k (add_pop k c) CI); exact J]; reflexivity.
+Qed.
+
+Definition Ws (s : sys) : Prop := Wc0 (co s) /\ (at_ s = Detached -> queue s = []).
+
+Lemma Ws_pk (s : sys) : at_ s <> Detached -> Wc0 (co s) -> Ws (pk s).
+Proof.
+  intros A J. unfold C17_Typeahead.pk, Ws, with_co, with_queue; cbn [co queue at_].
+  split; [apply pq_W; exact J|intros X; contradiction].
+Qed.
+
+Lemma Ws_finish r (s : sys) : Ws s -> Ws (finish r s).
+Proof. intros (J & _). unfold Ws, C17_Typeahead.finish; cbn [co queue at_]. auto. Qed.
+
+Lemma Ws_do_read n (s : sys) : at_ s <> Detached -> Ws s -> Ws (do_read n s).
+Proof.
+  intros A (J & D). unfold C17_Typeahead.do_read. cbv zeta. destruct (pipe s).
+  - pose proof (Ws_pk s A J) as (J1 & D1). destruct (wclosed s); [|split; assumption].
+    destruct (cph (co (pk s))) eqn:PC; [|split; assumption|split; assumption].
+    split; [|exact D1]. destruct J1 as (NB & LK & OK). unfold Wc0; cbn [co with_co cph kbuf rlog set_cph].
+    split; [discriminate|]. split; [|exact OK]. intros r X NE. inversion X; subst. contradiction.
+  - unfold C17_Typeahead.feed_keys. apply Ws_pk; [exact A|exact J].
+Qed.
+
+Lemma Ws_step (s : sys) l : Ws s -> Ws (step s l).
+Proof.
+  intros H. pose proof H as (J & D). pose proof J as (NB & LK & OK).
+  unfold C17_Typeahead.step.
+  destruct (cph (co s)) eqn:PH; destruct l; try exact H; try congruence.
+  all: try (destruct (wclosed s); [exact H|]; split; [exact J|exact D]).
+  all: try (split; [exact J|exact D]).
+  all: try (destruct (at_ s) eqn:A; try exact H;
+            try (apply Ws_do_read; [congruence|exact H]);
+            try (destruct (wcpr (co s)); [exact H|apply Ws_do_read; [congruence|exact H]]);
+            try (unfold C17_Typeahead.feed_keys; apply Ws_pk; [cbn [at_]; congruence|exact J]);
+            try (destruct (kbuf (co s)); [exact H|apply Ws_pk; [cbn [at_ with_queue]; congruence|exact J]]);
+            try (destruct (wcpr (co s)); [apply Ws_finish; exact H|exact H]);
+            try (apply Ws_finish; split; [exact J|cbn [at_ with_co]; congruence]);
+            try (split; [exact J|cbn [at_ with_co]; congruence]);
+            try (destruct (rcpr s && negb (Nat.eqb (wcpr (co s)) 0));
+                 [split; [exact J|cbn [at_]; congruence]|apply Ws_finish; exact H]);
+            fail).
+  (* LStart, twice *)
+  all: destruct (at_ s) eqn:A; [|exact H|exact H];
+       apply Ws_pk; [cbn [at_]; congruence|]; rewrite (D eq_refl);
+       unfold Wc0; cbn [co cph kbuf rlog];
+       (split; [discriminate|]); (split; [reflexivity|]);
+       (constructor; [exact I|]);
+       (destruct (kbuf (co s)); [exact OK|constructor; [reflexivity|exact OK]]).
+Qed.
+
+Lemma Ws_run ls : forall s : sys, Ws s -> Ws (run ls s).
+Proof.
+  induction ls as [|l ls IH]; intros s H; [exact H|]. cbn [C17_Typeahead.run fold_left].
+  apply IH. apply Ws_step. exact H.
+Qed.
+
+Lemma after_accept_any ls e p r :
+  let s := run ls (@init E bid res PS e p r) in
+  Forall ok_ev_w (rlog (co s)) /\ cph (co s) <> CBroken res /\
+  (forall x, cph (co s) = CDone x -> x <> res_eof -> kbuf (co s) = []).
+Proof.
+  intros s. destruct (Ws_run ls (@init E bid res PS e p r)) as ((NB & LK & OK) & _); [|auto].
+  unfold Ws, Wc0, init, init_core; cbn. repeat split; auto; try congruence; try discriminate.
+Qed.
+
 End P.
 Arguments cpr_silent {E bid res} eff cpr_lookup feeds.
